@@ -547,5 +547,14 @@ def replay(mod, path):
     why = suite.oracle(c, r)
     print("oracle       :", why or "property holds on this case")
     if why:
-        fails = True
+        known = {k["id"]: k for k in load_known()["known"] if k["property"] == mod.PROPERTY}
+        fid = None
+        try:
+            fid = suite.finding(c, r, why)
+        except Exception:
+            fid = None
+        if fid in known and not fails:
+            print(f"KNOWN-FINDING: property={mod.PROPERTY} {fid}: {known[fid]['what']}")
+        else:
+            fails = True
     return 1 if fails else 0
